@@ -3,6 +3,8 @@ package rules
 import (
 	"fmt"
 	"go/ast"
+	"go/token"
+	"go/types"
 	"strings"
 
 	"verif/checker/internal/core"
@@ -15,7 +17,7 @@ func init() {
 		ID:          "C10",
 		Explanation: "Decided: (order) a package's declarations are assembled as imports, types, variables, functions; implicitly initialised variables precede the explicit initialisers, which follow go/types' InitOrder; the call of main is the last function decl; the package $init replaces itself first (runs once), emits InitCode in decl order, and import initialisers are blocking and flattened; dependencies are linked in post-order with runtime first; the program-level chain $finishSetup ≺ method synthesis ≺ $initLinknames ≺ runtime init ≺ main init; (files) files are ordered by name only, before type checking; (linkname) the three unsupported uses are rejected on error paths, implementations are registered in $linknames during $finishSetup and references bound in $initLinknames afterwards, method implementations go through $unsafeMethodToFunction with the pointer flag taken from the symbol. NOT decided: the run-time order for every import DAG; behaviour of blocking initialisers.",
 		Assumptions: []string{"go/types' InitOrder is the specification's variable initialisation order"},
-		Rules:       []RuleFunc{ruleC10Order, ruleC17Order, ruleC10Linkname, ruleAssembly},
+		Rules:       []RuleFunc{ruleC10Order, ruleC17Order, ruleC10Linkname, ruleAssembly, ruleC09Mname},
 	})
 }
 
@@ -51,6 +53,32 @@ func ruleC10Order(c *ctx.Ctx, r *core.Reporter) {
 			}
 		}
 		r.Check(mainPos > loopEnd && loopEnd > 0, "funcs:main-call-last", c.Pos(fd.Pos()), "the decl that invokes main() is appended after every function (including every init) of the package")
+		// the entry point is chosen among functions only: a method may be called main as well
+		{
+			// the variable handed to callMainFunc
+			entry := ""
+			for _, m := range findGoPattern(fd.Body, `µfc.callMainFunc(µv)`) {
+				entry = m.Env["µv"]
+			}
+			nAssign, nGuarded := 0, 0
+			ast.Inspect(fd.Body, func(n ast.Node) bool {
+				as, ok := n.(*ast.AssignStmt)
+				if !ok || len(as.Lhs) != 1 || exprStr(as.Lhs[0]) != entry || as.Tok != token.ASSIGN {
+					return true
+				}
+				nAssign++
+				for _, is := range enclosingIfs(fd.Body, as.Pos()) {
+					for _, cj := range conjuncts(is.Cond) {
+						switch squash(exprStr(cj)) {
+						case "fun.Recv==nil", "!typesutil.IsMethod(o)", "o.Type().(*types.Signature).Recv()==nil":
+							nGuarded++
+						}
+					}
+				}
+				return true
+			})
+			r.Check(entry != "" && nAssign >= 1 && nGuarded == nAssign, "funcs:main-is-a-function", c.Pos(fd.Pos()), fmt.Sprintf("the declaration invoked as the program's main() is selected only among declarations without receiver (%d of %d selections guarded)", nGuarded, nAssign))
+		}
 		s := squash(nodeString(c, fd.Body))
 		r.Check(strings.Contains(s, `ifmainFunc==nil{returnnil,fmt.Errorf("missingmainfunction")}`), "funcs:main-required", c.Pos(fd.Pos()), "a main package without main() is rejected")
 	}
@@ -235,11 +263,51 @@ func ruleC10Linkname(c *ctx.Ctx, r *core.Reporter) {
 	iInit := strings.Index(js, "initLinknames")
 	r.Check(iOpen >= 0 && iReg > iOpen, "register:inside-finishSetup", c.Pos(wp.Pos()), "implementations are stored in $linknames while $finishSetup runs (sequence: "+js+")")
 	r.Check(strings.Contains(js, "bind") && iInit >= 0, "bind:in-initLinknames", c.Pos(wp.Pos()), "references are bound from $linknames inside $initLinknames, which the program calls after every $finishSetup (C01.assembly)")
+	// the Decl fields spliced into the registration code as JavaScript expressions hold JavaScript names:
+	// every store into them comes from the compiler's name allocators (a Go name differs from the JS
+	// variable when the name is reserved, minified or collides)
+	{
+		info := c.Pkg("compiler").TypesInfo
+		allocators := map[string]bool{"objectName": true, "instName": true, "typeName": true}
+		for _, field := range []string{"NamedRecvType", "RefExpr"} {
+			n := 0
+			for _, fd := range c.AllFuncDecls("compiler") {
+				if fd.Body == nil || c.IsTestFile(fd.Pos()) {
+					continue
+				}
+				ast.Inspect(fd.Body, func(x ast.Node) bool {
+					as, ok := x.(*ast.AssignStmt)
+					if !ok {
+						return true
+					}
+					for i, l := range as.Lhs {
+						sel, ok := l.(*ast.SelectorExpr)
+						if !ok || sel.Sel.Name != field || i >= len(as.Rhs) {
+							continue
+						}
+						if v, ok := info.ObjectOf(sel.Sel).(*types.Var); !ok || !v.IsField() || v.Pkg() == nil || v.Pkg().Path() != modPath("compiler") {
+							continue
+						}
+						n++
+						good := false
+						if call, ok := as.Rhs[i].(*ast.CallExpr); ok {
+							if _, _, name := callee(info, call); allocators[name] {
+								good = true
+							}
+						}
+						r.Check(good, fmt.Sprintf("js-name:%s@%s#%d", field, ctx.FuncName(fd), n), c.Pos(as.Pos()), fmt.Sprintf("Decl.%s (spliced into $linknames registration and binding code as a JavaScript expression) is assigned from a name allocator: `%s`", field, exprStr(as.Rhs[i])))
+					}
+					return true
+				})
+			}
+			r.Check(n >= 1, "js-name:"+field, "compiler/decls.go", fmt.Sprintf("Decl.%s has %d stores", field, n))
+		}
+	}
 	// method flag
 	t := hasTemplate(c, "WritePkgCode", "", func(t *tmpl.Template) bool { return strings.Contains(t.Text, "$unsafeMethodToFunction(") })
 	if t != nil {
 		a := t.FmtArgs()
-		ok := len(a) == 4 && exprStr(a[0]) == "d.LinkingName.String()" && exprStr(a[1]) == "d.NamedRecvType" && exprStr(a[2]) == "method" && squash(exprStr(a[3])) == `strings.HasPrefix(recv,"*")`
+		ok := len(a) == 4 && exprStr(a[0]) == "d.LinkingName.String()" && exprStr(a[1]) == "d.NamedRecvType" && mentionsIdent(a[2], "method") && squash(exprStr(a[3])) == `strings.HasPrefix(recv,"*")`
 		r.Check(ok, "register:method-flag", c.Pos(t.Pos), "a method implementation is registered with its receiver type, method name and pointer-receiver flag derived from the symbol name")
 	} else {
 		r.Violation("register:method-flag", c.Pos(wp.Pos()), "no $unsafeMethodToFunction registration")
@@ -365,4 +433,16 @@ func callsToIdent(n ast.Node, name string) []*ast.CallExpr {
 		return true
 	})
 	return out
+}
+
+// mentionsIdent reports whether identifier name occurs in e.
+func mentionsIdent(e ast.Expr, name string) bool {
+	found := false
+	ast.Inspect(e, func(n ast.Node) bool {
+		if id, ok := n.(*ast.Ident); ok && id.Name == name {
+			found = true
+		}
+		return true
+	})
+	return found
 }
